@@ -35,8 +35,16 @@ func RefOf(rt corpus.Runtime, file string) *Ref {
 		panic("no corpus file " + file)
 	}
 	files := &protoregistry.Files{}
-	for _, d := range spec.Deps {
-		_ = files.RegisterFile(RefOf(rt, d).File)
+	var reg func(name string)
+	reg = func(name string) { // transitive: a type may be reachable through the public import of an imported file
+		ds, _ := corpus.Spec(name)
+		for _, d := range ds.AllDeps() {
+			reg(d)
+		}
+		_ = files.RegisterFile(RefOf(rt, name).File)
+	}
+	for _, d := range spec.AllDeps() {
+		reg(d)
 	}
 	for _, e := range spec.Ext { // well-known types: the descriptors protobuf-go ships
 		if f, err := protoregistry.GlobalFiles.FindFileByPath(e); err == nil {
